@@ -87,6 +87,16 @@ def run(chk, replay=None):
                 xml.dom.minidom.parseString(t1.encode('utf-8'))
             except Exception as e:
                 oracle.append(('the printed document is not well-formed XML: %s' % e, text, None)); continue
+            dupv = None
+            for which, dd in (('parsed', d0), ('printed and parsed again', d1)):
+                for cl in dd.split('\n'):
+                    if cl.lstrip().startswith('(component '):
+                        names = re.findall(r'\(var (#[0-9a-f]*) ', cl)
+                        if len(names) != len(set(names)):
+                            dupv = 'the %s model has a component with two variables of the same name (%s): a placeholder variable of an imported component is created once per map_variables instead of once' % (
+                                which, bytes.fromhex([x for x in names if names.count(x) > 1][0][1:]).decode('utf-8', 'replace'))
+            if dupv and valid:
+                oracle.append((dupv, text, None)); continue
             if d0 != d1:
                 if round15(d0) == round15(d1) and 'C02-fifteen-digits' in kf:
                     chk.known_finding(kf['C02-fifteen-digits']['what']); stats['known_fifteen_digits'] += 1
